@@ -215,7 +215,69 @@ func c10Check(h []int, noReg bool) *core.Viol {
 	return nil
 }
 
+// c10NestingFamily: after every kind of failing input (1 or 3 times), the deepest recursion that fits under the
+// evaluator's own nesting bound (found by bisection on a fresh session) must still fit: no nesting level may leak.
+func c10NestingFamily(c *core.Ctx) string {
+	if !c.MineNoDedup("nest", "the nesting family runs in one worker") {
+		return ""
+	}
+	prog := func(n int) string {
+		return fmt.Sprintf("func nf(n) { if n <= 0 { return n }; first([nf(n - 1)]) }; println(nf(%d))", n)
+	}
+	cfg := sessCfg{maxDepth: 1 << 30}
+	fits := func(x *sess, n int) bool {
+		r := x.step(prog(n))
+		return !r.panicked && len(r.errs) == 0
+	}
+	lo, hi := 1000, 400000 // lo fits, hi does not
+	c.Current(core.Case{Kind: "nest", Data: "bisect"})
+	if fits(newSess(cfg), hi) || !fits(newSess(cfg), lo) {
+		return ""
+	}
+	for lo+1 < hi {
+		mid := (lo + hi) / 2
+		c.Current(core.Case{Kind: "nest", Data: fmt.Sprintf("bisect %d", mid)})
+		if fits(newSess(cfg), mid) {
+			lo = mid
+		} else {
+			hi = mid
+		}
+	}
+	n := 0
+	for bi := range c10Bad {
+		if c10Bad[bi] == "NESTDEEP" || c10Bad[bi] == "DEEP" || strings.HasPrefix(c10Bad[bi], "for z3") {
+			continue // (they need the small MaxDepth of the main family)
+		}
+		for _, m := range []int{1, 3} {
+			cs := core.Case{Kind: "nest", Cfg: fmt.Sprint(m), Data: c10Bad[bi]}
+			c.Current(cs)
+			v := c.Run(func() *core.Viol {
+				x := newSess(cfg)
+				x.step(c10Good[8]) // defines rec (used by the CANCEL inputs)
+				for k := 0; k < m; k++ {
+					c10Step(x, c10Bad[bi])
+				}
+				if !fits(x, lo) {
+					return &core.Viol{Class: "after-failure:nesting-level-leaked", Detail: fmt.Sprintf("after %d x %q a recursion %d deep no longer fits under the nesting bound (it does on a fresh session)", m, c10Bad[bi], lo), Case: cs}
+				}
+				return nil
+			})
+			out := "no-trace"
+			if v != nil {
+				out = v.Class
+			}
+			c.CountNT(fmt.Sprintf("nest: %dx %s", m, trunc(c10Bad[bi], 80)), out, true)
+			n++
+		}
+	}
+	return fmt.Sprintf("nesting bound: after each of %d failing inputs (x1, x3) the deepest recursion that fits on a fresh session (%d levels) still fits", n/2, lo)
+}
+
 func runC10(c *core.Ctx) {
+	nestBound := c10NestingFamily(c)
+	if nestBound != "" {
+		defer func() { c.P.Bound += "; " + nestBound }()
+	}
 	baseLen := 2
 	if !c.Quick() {
 		baseLen = 3
@@ -304,7 +366,7 @@ func init() {
 		Level: "model_checking",
 		Rule: "history exploration through the real repl.EvalOne on one persistent eval.State (MaxDepth 60): base histories = every sequence of <=2 (thorough 3) of 12 succeeding inputs (printing, defining and calling printing/cached/recursive functions, closures, counted and list loops, global updates); into each, every placement of one side-effect-free failing input of 15 kinds (language error at top level / in nested calls / in nested loops / in an array literal / wrong arity, Go runtime panic in a function / in a loop / in nested loops, depth overflow at top level and in a function, pre-cancelled context, cancellation inside a function, parse error, error while building print arguments) repeated 1, 2, 9 and 17 times at every position, and every placement of two failing inputs. Oracle: each succeeding input's output, result, errors equal those of the base history without the failing inputs. Non-trivial = every history; distinct by input sequence.",
 		Assume:      []string{"runtime panics injected by the harness extension verif_panic()", "cancellation injected by verif_cancel() and a pre-cancelled context"},
-		QuickCap:    100 * time.Second,
+		QuickCap:    150 * time.Second,
 		ThoroughCap: 20 * time.Minute,
 		HangLimit:   240 * time.Second,
 		Run:         runC10,
